@@ -37,6 +37,15 @@ class _Extras:
         self.__dict__.setdefault("_journal", []).append(("pick", tuple(items), scale))
         return sum(items) * scale
 
+    def bare(self, n: int = 0) -> int:
+        self.__dict__.setdefault("_journal", []).append(("bare", n))
+        return n * 2
+
+    def blank(self, n: int = 0) -> int:
+        """ """
+        self.__dict__.setdefault("_journal", []).append(("blank", n))
+        return n + 1
+
     @property
     def mood(self) -> str:
         """The mood."""
